@@ -22,6 +22,9 @@ pub struct Case {
     pub site: Option<Site>,
     pub date: Option<String>,
     pub p: Option<PSpec>,
+    /// api level: optional weather (pressure, temperature) passed to every call of the case
+    #[serde(default)]
+    pub weather: Option<(X, X)>,
 }
 
 fn hms(t: chrono::NaiveTime) -> (u32, u32, u32) {
@@ -90,13 +93,14 @@ fn check_api(st: &mut Stats, c: &Case) {
     let date = s2d(c.date.as_ref().unwrap());
     let mut p = c.p.as_ref().unwrap().build();
     p.round_seconds = RoundSeconds::None;
-    let Ok(base) = call(st, &p, site.loc(), date, None) else {
+    let w = c.weather.map(|(a, b)| weather(a.0, b.0));
+    let Ok(base) = call(st, &p, site.loc(), date, w) else {
         st.count("panicked_cannot_decide(see C07)");
         return;
     };
     for mode in [RoundSeconds::NormalRounding, RoundSeconds::SpecialRounding, RoundSeconds::AggressiveRounding] {
         p.round_seconds = mode;
-        let Ok(res) = call(st, &p, site.loc(), date, None) else {
+        let Ok(res) = call(st, &p, site.loc(), date, w) else {
             st.count("panicked_cannot_decide(see C07)");
             continue;
         };
@@ -186,6 +190,7 @@ pub fn run(ctx: &Ctx, st: &mut Stats) {
                     site: None,
                     date: None,
                     p: None,
+                    weather: None,
                 };
                 check_hook(st, &c);
                 n_hook += 1;
@@ -205,10 +210,25 @@ pub fn run(ctx: &Ctx, st: &mut Stats) {
     for k in 0..n {
         let lon = gen::any_lon(&mut r);
         let mut p = PSpec::new(r.int(1, 8) as usize);
-        if r.chance(0.5) {
+        let site_lat = gen::lat_within(&mut r, 58.0);
+        if r.chance(0.35) {
             p = p.with_policy("NearestGoodDayFajrIshaInvalid", None);
         } else if r.chance(0.3) {
             p = p.with_policy("SeventhOfNightFajrIshaAlways", None);
+        } else if r.chance(0.6) {
+            // any policy; substitute latitudes include the site's own latitude and near misses of it (values that agree
+            // to the minute but not to the second): neither flag nor validity may depend on the rounding mode
+            let pol = *r.pick(&POLICIES);
+            let pl = if is_nearest_lat(pol) {
+                Some(match r.int(0, 3) {
+                    0 => site_lat.clamp(-60.0, 60.0),
+                    1 => (site_lat + r.range(-0.05, 0.05)).clamp(-60.0, 60.0),
+                    _ => r.range(-60.0, 60.0),
+                })
+            } else {
+                None
+            };
+            p = p.with_policy(pol, pl);
         }
         if r.chance(0.3) {
             p.imsaak_int = Some(X(if r.chance(0.5) { r.int(1, 30) as f64 } else { r.range(0.5, 30.0) }));
@@ -231,9 +251,18 @@ pub fn run(ctx: &Ctx, st: &mut Stats) {
             hour: None,
             prayer: None,
             offset_min: None,
-            site: Some(Site::new(gen::lat_within(&mut r, 58.0), lon, gen::any_elev(&mut r), gen::any_gmt(&mut r))),
+            site: Some(Site::new(site_lat, lon, gen::any_elev(&mut r), gen::any_gmt(&mut r))),
             date: Some(d2s(rand_date(&mut r))),
             p: Some(p),
+            // the rounding rule is the same whether or not weather is supplied (standard atmosphere given explicitly included)
+            weather: match r.int(0, 5) {
+                0 => Some((X(1010.0), X(14.0))),
+                1 => {
+                    let w = gen::any_weather(&mut r);
+                    Some((X(f64::from(w.pressure)), X(f64::from(w.temperature))))
+                }
+                _ => None,
+            },
         };
         check_api(st, &c);
         st.nontrivial_key(hash64(&format!("{:?}", c)));
